@@ -894,6 +894,9 @@ type c20Scenario struct {
 	AtReady   bool
 	Strace    bool
 	Then      []c20Op // kill runs: operations of a fresh process on the same directory afterwards (leftovers included)
+	Peer      []c20Op // kill runs: a second process storing these in a loop into the same directory at the same time
+	PeerAtB   int     // the second process is killed PeerAfter microseconds after the begin marker of this operation
+	PeerAfter int
 }
 
 // c20Start is the state a sequential run starts from.
@@ -1237,6 +1240,100 @@ func c20Shape(seg *c20Seg) string {
 	return sb.String()
 }
 
+// c20Loop is what the markers of a killed loop run say about the file: the configuration of the last store
+// that succeeded (or the initial one), and the configuration of the store in progress.
+type c20Loop struct {
+	disk       c20Sym
+	present    bool
+	cur        c20Sym
+	inProgress bool
+	failures   int
+}
+
+// replayLoop replays the operations symbolically up to the last one that began. verdict != "": the run cannot be judged.
+func (e *c20Env) replayLoop(sc *c20Scenario, ops []c20Op, marks *c20Marks, replay string) (lp c20Loop, verdict string) {
+	mem := c20Sym{Base: sc.Init, Gen: -1, Pub: -1, Dec: -1, Sub: -1}
+	lp.disk, lp.present = mem, sc.Init >= 0
+	n := len(ops)
+	lp.inProgress = marks.lastB >= 0 && !marks.ended[marks.lastB]
+	for i := 0; i <= marks.lastB; i++ {
+		op := ops[i%n]
+		newSym := mem.apply(op)
+		if i == marks.lastB && lp.inProgress {
+			lp.cur = newSym
+			break
+		}
+		if marks.errs[i] {
+			full := marks.errCls[i] == "no_space_left" || marks.errCls[i] == "quota_exceeded"
+			switch {
+			case sc.Tmpfs > 0 && full:
+				lp.failures++
+				e.count("kill:store-failed-on-full-filesystem")
+			case full:
+				// the machine's temporary file system filled up (parallel multi-megabyte runs, other checks): not a finding
+				e.count("skip:env-full")
+				return lp, "env-full"
+			default:
+				// no other failure is injected in kill runs; a failing store here is reported, not assumed away
+				e.out.OracleFail("C20:healthy-store-failed", fmt.Sprintf("operation %d failed (%s) in a healthy directory", i, marks.errCls[i]), replay)
+				return lp, "failed"
+			}
+			if op.Kind != "conf" && op.Kind != "confnil" {
+				mem = newSym // the in-place setters keep their modification in memory
+			}
+			continue
+		}
+		mem, lp.disk, lp.present = newSym, newSym, true
+	}
+	return lp, ""
+}
+
+// checkKilledPair evaluates two loop runs on one directory, both killed: nothing serialises two client processes
+// that share an assets directory, but each stores through its own temporary file and a rename, so the file must be
+// a complete configuration: the last one either process stored, or the one either was storing.
+func (e *c20Env) checkKilledPair(sc *c20Scenario, marksA, marksB *c20Marks) {
+	out := e.out
+	replay := sc.replay()
+	a, va := e.replayLoop(sc, sc.Job.Ops, marksA, replay)
+	b, vb := e.replayLoop(sc, sc.Peer, marksB, replay)
+	if va != "" || vb != "" {
+		return
+	}
+	var cands []*pb.ClientConf
+	absentOK := sc.Init < 0 && (!a.present || !b.present)
+	for _, lp := range []c20Loop{a, b} {
+		if lp.present {
+			cands = append(cands, lp.disk.materialise())
+		}
+		if lp.inProgress {
+			cands = append(cands, lp.cur.materialise())
+		}
+	}
+	e.count("kill:two-processes")
+	if a.inProgress && b.inProgress {
+		e.count("kill:two-processes:both-inside-a-store")
+	}
+	out.Checked()
+	got, err := c20ReadReal(sc.Job.Dir)
+	raw, rerr := os.ReadFile(filepath.Join(sc.Job.Dir, "ClientConf"))
+	where := fmt.Sprintf("two processes on one directory, killed (first: last began %d, ended %d; second: last began %d, ended %d)", marksA.lastB, marksA.lastE, marksB.lastB, marksB.lastE)
+	switch {
+	case rerr != nil && os.IsNotExist(rerr):
+		if !absentOK {
+			out.OracleFail("C20:target-missing", where+": no ClientConf file", replay)
+		}
+	case err != nil:
+		out.OracleFail("C20:target-unparseable", fmt.Sprintf("%s: the real reader fails: %v (%d bytes)", where, err, len(raw)), replay)
+	default:
+		for _, c := range cands {
+			if proto.Equal(got, c) {
+				return
+			}
+		}
+		out.OracleFail("C20:target-neither-old-nor-new", fmt.Sprintf("%s: the file (%d bytes, generation %d) is none of the configurations either process stored last or was storing", where, len(raw), got.GetGeneration()), replay)
+	}
+}
+
 // checkKilled evaluates a loop run that was killed: the file must be the configuration before or
 // the one being stored by the operation in progress (or exactly the last one stored when none was).
 // In a directory on a (nearly) full tmpfs stores fail with ENOSPC: a failed store leaves the file as it was.
@@ -1245,42 +1342,11 @@ func (e *c20Env) checkKilled(sc *c20Scenario, marks *c20Marks, sys []c20Sys) (fi
 	out := e.out
 	dir := sc.Job.Dir
 	replay := sc.replay()
-	// replay the operations symbolically up to the last one that began
-	mem := c20Sym{Base: sc.Init, Gen: -1, Pub: -1, Dec: -1, Sub: -1}
-	disk, diskPresent := mem, sc.Init >= 0
-	var cur c20Sym // what the operation in progress stores
-	n := len(sc.Job.Ops)
-	inProgress := marks.lastB >= 0 && !marks.ended[marks.lastB]
-	failures := 0
-	for i := 0; i <= marks.lastB; i++ {
-		op := sc.Job.Ops[i%n]
-		newSym := mem.apply(op)
-		if i == marks.lastB && inProgress {
-			cur = newSym
-			break
-		}
-		if marks.errs[i] {
-			full := marks.errCls[i] == "no_space_left" || marks.errCls[i] == "quota_exceeded"
-			switch {
-			case sc.Tmpfs > 0 && full:
-				failures++
-				e.count("kill:store-failed-on-full-filesystem")
-			case full:
-				// the machine's temporary file system filled up (parallel multi-megabyte runs, other checks): not a finding
-				e.count("skip:env-full")
-				return
-			default:
-				// no other failure is injected in kill runs; a failing store here is reported, not assumed away
-				out.OracleFail("C20:healthy-store-failed", fmt.Sprintf("operation %d failed (%s) in a healthy directory", i, marks.errCls[i]), replay)
-				return
-			}
-			if op.Kind != "conf" && op.Kind != "confnil" {
-				mem = newSym // the in-place setters keep their modification in memory
-			}
-			continue
-		}
-		mem, disk, diskPresent = newSym, newSym, true
+	lp, verdict := e.replayLoop(sc, sc.Job.Ops, marks, replay)
+	if verdict != "" {
+		return
 	}
+	disk, diskPresent, cur, inProgress, failures := lp.disk, lp.present, lp.cur, lp.inProgress, lp.failures
 	type cand struct {
 		sym  c20Sym
 		conf *pb.ClientConf
@@ -1629,6 +1695,60 @@ func (e *c20Env) scenarioKill(r *vlib.Rand, strace bool) *c20Scenario {
 	return sc
 }
 
+// scenarioKillPair: two processes store into one directory at the same time (distinct configurations), both are killed.
+func (e *c20Env) scenarioKillPair(r *vlib.Rand) *c20Scenario {
+	sc := e.scenarioKill(r, false)
+	sc.Then = nil
+	off := func(op c20Op) c20Op {
+		if op.Kind == "conf" {
+			op.K += c20nClasses * 20 // same class, another member of the family
+		} else {
+			op.K += 50000
+		}
+		return op
+	}
+	var peer []c20Op
+	switch r.Intn(3) {
+	case 0:
+		for _, op := range sc.Job.Ops {
+			peer = append(peer, off(op))
+		}
+	case 1:
+		peer = []c20Op{off(c20Op{Kind: "conf", K: c20KOf(r, c20FlatLarge)}), off(c20Op{Kind: "conf", K: c20SmallK(r)})}
+	default:
+		for _, op := range c20DistinctOps(r, r.Range(2, 4), false, false) {
+			peer = append(peer, off(op))
+		}
+	}
+	if len(peer) > 1 && peer[0].Kind == peer[len(peer)-1].Kind && peer[0].K == peer[len(peer)-1].K {
+		peer = peer[:len(peer)-1]
+	}
+	if len(peer) == 1 {
+		peer = append(peer, c20Op{Kind: "gen", K: 59000 + r.Intn(100)})
+	}
+	// Each process reads the file when it starts, and by then the other one may have replaced it already: what the
+	// in-place setters build on is only known once the process has installed a whole configuration itself.  Both
+	// loops therefore begin with a SetClientConf.
+	lead := func(ops []c20Op, k int) []c20Op {
+		if ops[0].Kind == "conf" {
+			return ops
+		}
+		if last := ops[len(ops)-1]; last.Kind == "conf" && last.K == k {
+			k += c20nClasses
+		}
+		return append([]c20Op{{Kind: "conf", K: k}}, ops...)
+	}
+	sc.Job.Ops = lead(sc.Job.Ops, c20SmallK(r))
+	peer = lead(peer, c20SmallK(r)+c20nClasses*20)
+	sc.Peer = peer
+	sc.KillAtB = r.Intn(4 * len(sc.Job.Ops))
+	sc.KillAfter = c20KillDelay(r, sc.Job.Ops[sc.KillAtB%len(sc.Job.Ops)], false)
+	sc.AtReady = false
+	sc.PeerAtB = r.Intn(4 * len(peer))
+	sc.PeerAfter = c20KillDelay(r, peer[sc.PeerAtB%len(peer)], false)
+	return sc
+}
+
 // scenarioKillFull: the same on a small tmpfs that the multi-megabyte stores fill up: stores fail with ENOSPC
 // and leave their temporary files behind, the kill lands among failing and succeeding stores, and a fresh
 // process then stores again into the directory as it was left.
@@ -1661,6 +1781,27 @@ func (e *c20Env) run(sc *c20Scenario, kind string) {
 		return true
 	}
 	if skipped(note) {
+		return
+	}
+	if sc.Job.Loop && len(sc.Peer) > 0 {
+		// a second process on the same directory, killed at an instant of its own
+		peer := &c20Scenario{KillAfter: sc.PeerAfter, KillAtB: sc.PeerAtB}
+		pjob := &c20Job{Dir: sc.Job.Dir, Loop: true, Ops: sc.Peer}
+		type res struct {
+			marks *c20Marks
+			note  string
+		}
+		ch := make(chan res, 1)
+		go func() {
+			m, _, n := e.exec(peer, pjob, root, "-peer")
+			ch <- res{m, n}
+		}()
+		marks, _, note := e.exec(sc, &sc.Job, root, "")
+		pr := <-ch
+		if skipped(note) || skipped(pr.note) {
+			return
+		}
+		e.checkKilledPair(sc, marks, pr.marks)
 		return
 	}
 	marks, sys, note := e.exec(sc, &sc.Job, root, "")
@@ -1800,6 +1941,8 @@ func TestVerifC20(t *testing.T) {
 			switch {
 			case i%8 == 3:
 				scs[i], kinds[i] = e.scenarioKillFull(r), "kill-full-filesystem"
+			case i%8 == 6:
+				scs[i], kinds[i] = e.scenarioKillPair(r), "kill-two-processes"
 			case st:
 				scs[i], kinds[i] = e.scenarioKill(r, true), "kill-strace"
 			default:
@@ -1849,6 +1992,7 @@ func TestVerifC20(t *testing.T) {
 	need("kill:file-is-new", 1, "kills after the rename")
 	need("kill:file-is-old", 1, "kills before the rename")
 	need("scenario:store-after-kill", n/20, "a fresh process storing after a kill")
+	need("kill:two-processes", n/20, "two processes storing into one directory")
 	need("result:err:file_too_large", 1, "RLIMIT_FSIZE")
 	need("result:err:no_such_file", 1, "vanished directory")
 	if os.Geteuid() == 0 {
@@ -1918,6 +2062,7 @@ func c20Replay(t *testing.T, e *c20Env, path string) {
 			c := sc
 			c.Job.Ops = append([]c20Op(nil), sc.Job.Ops...)
 			c.Then = append([]c20Op(nil), sc.Then...)
+			c.Peer = append([]c20Op(nil), sc.Peer...)
 			e.run(&c, "replay")
 		}
 		fmt.Println("REPLAY scenario:", l)
